@@ -650,6 +650,42 @@ def explore_event_sequences(ctx, base, n):
         ctx.broke("correspondence", f"lock-file name: model and implementation differ on {lkeep[i]}")
 
 
+def explore_sizes(ctx, base):
+    """the registered length and MD5 are those of the content, for files around the hashing loop's block (32 KiB) and chunk (32 MiB) sizes"""
+    from alpenhorn.daemon import auto_import as AI
+    from alpenhorn.daemon import update as U
+
+    shutil.rmtree(base, ignore_errors=True)
+    w.fresh_db()
+    install_detector()
+    DETECT["map"] = {}
+    g = w.mkgroup("g")
+    node = w.mknode(base, "n", g, stype="F")
+    root = pathlib.Path(node.root)
+    (root / "acq").mkdir()
+    queue = w.StepQueue.make()
+    unode = U.UpdateableNode(queue, w.StorageNode.get(id=node.id))
+    chunk = 1024 * 32768
+    sizes = [0, 1, 32767, 32768, 32769, 65536 + 1] + ([chunk + 5] if ctx.quick() else [chunk - 1, chunk, chunk + 5, chunk + 32768, 2 * chunk + 1])
+    want = {}
+    for i, sz in enumerate(sizes):
+        blk = bytes((j * 131 + i) & 0xFF for j in range(4099))
+        data = (blk * (sz // len(blk) + 1))[:sz]
+        (root / "acq" / f"s{i}").write_bytes(data)
+        want[f"s{i}"] = (sz, hashlib.md5(data).hexdigest())
+        AI.import_file(unode, queue, pathlib.PurePath("acq") / f"s{i}", True, None)
+    exits, aborted = w.drain_with_workers(queue)
+    got = {f.name: (f.size_b, f.md5sum) for f in w.ArchiveFile.select()}
+    ctx.count("import-sizes", len(sizes))
+    ctx.distinct_add(("sizes", tuple(sizes)))
+    for name, (sz, md5) in want.items():
+        if got.get(name) != (sz, md5):
+            ctx.fail("C04:registered-size-digest", f"a {sz}-byte file was registered as {got.get(name)}; its length and MD5 are {(sz, md5)}", {"family": "sizes", "size": sz, "registered": got.get(name)})
+    if aborted:
+        ctx.fail("C04:registered-size-digest", "the import of plain files aborted the daemon", {"family": "sizes"})
+    shutil.rmtree(base, ignore_errors=True)
+
+
 def explore(ctx):
     base = ctx.tmp() / "sim"
     iterms, vterms, keep = [], [], []
@@ -684,6 +720,7 @@ def explore(ctx):
     for i in bad[:3]:
         ctx.broke("correspondence", f"two importers: final copy row not reachable in the model: {cterms[i]}")
     explore_event_sequences(ctx, ctx.tmp() / "evseq", 40 if ctx.quick() else 1500)
+    explore_sizes(ctx, ctx.tmp() / "sizes")
     explore_events(ctx, ctx.tmp() / "ev")
 
 
